@@ -32,7 +32,7 @@ FMAX = 100000
 
 def load():
     symex.FLOAT_AS_DECIMAL = True   # literals such as 26.81 are the decimals the published formulas state
-    return loader.load_unit('scales', dict(np=MathNP, max=smax, min=smin), name='scales_under_test')
+    return loader.load_unit('scales', dict(np=MathNP, max=smax, min=smin, float=symex.float_type), name='scales_under_test')
 
 
 def configs(tier, seed):
